@@ -17,6 +17,10 @@
 (*   TypedCall / TypedPartial   the same two actions for the templates     *)
 (*                        whose parameters have declared types             *)
 (*   NamedRef(f, arity)   named function reference f#arity -> new $pK      *)
+(* Templates also vary the FORM of the function item: declared parameter   *)
+(* types, a declared RESULT type (rtd, rtds, rtany; ResultTypeLaw),        *)
+(* references to focus-dependent functions made per item of  S ! name#0,   *)
+(* of a path step r/child/name#0, and by fn:function-lookup (lk.. ids).    *)
 (*                                                                         *)
 (* log  = the result of every call under the DEFINITIONAL semantics        *)
 (*        (FnEval!Eval); it is the oracle of the conformance replay.       *)
@@ -119,26 +123,43 @@ FExpr(id) ==
                                Cat(Var("a"), Op("+", Var("b"), Iv))))
     [] id = "typ3" -> TFun("F", <<"a", "b", "c">>, <<"xs:string", "xs:integer", "xs:string">>,
                            Cat(Var("a"), Cat(Op("+", Var("b"), Iv), Var("c"))))
+    (* a DECLARED RESULT TYPE: the function conversion rules apply to the result of EVERY call of the function item,
+       direct, later, and through a partial application (integer results promoted to xs:double) *)
+    [] id = "rtd" -> RFun("F", <<"a", "b">>, <<"xs:integer", "xs:integer">>, "xs:double", Op("+", Op("+", Var("a"), Var("b")), Iv))
+    [] id = "rtds" -> RFun("F", <<"a", "b">>, <<"xs:integer", "xs:integer">>, "xs:double+", Cat(Var("a"), Op("+", Var("b"), Iv)))
+    [] id = "rtany" -> RFun("F", <<"x", "y">>, <<AnyType, AnyType>>, "xs:double", Op("+", Op("*", X, Iv), Y))
     (* named references to focus-dependent functions, one per item of  source ! name#0 *)
     [] id = "refpos" -> Ref("position", 0)
     [] id = "refstr" -> Ref("string", 0)
     [] id \in {"refslen", "refnlen"} -> Ref("string-length", 0)
-    [] id = "refname" -> Ref("name", 0)
+    [] id \in {"refname", "refstname"} -> Ref("name", 0)
+    (* the same function items obtained by fn:function-lookup (F&O 3.1 16.1.1: "the context that applies is the static
+       and/or dynamic context of the call to the fn:function-lookup function itself"), one per item of
+       source ! function-lookup(..) and of the path step  /r/* / function-lookup(..) *)
+    [] id \in {"lkpos", "lkstpos"} -> Lookup("position", 0)
+    [] id = "lkstr" -> Lookup("string", 0)
+    [] id \in {"lkslen", "lknlen"} -> Lookup("string-length", 0)
+    [] id \in {"lkname", "lkstname"} -> Lookup("name", 0)
 
-FocusTpls == {"refpos", "refstr", "refslen", "refnlen", "refname"}
-DocTpls == {"refnlen", "refname"}          \* the items are the element children of the fixed document
-TypedTpls == {"typ2", "typd", "typ3"}
+LookupTpls == {"lkpos", "lkstr", "lkslen", "lknlen", "lkname", "lkstpos", "lkstname"}
+StepTpls == {"refstname", "lkstpos", "lkstname"}      \* the creating scope is a path step instead of the ! operator
+FocusTpls == {"refpos", "refstr", "refslen", "refnlen", "refname", "refstname"} \cup LookupTpls
+DocTpls == {"refnlen", "refname", "lknlen", "lkname"} \cup StepTpls   \* the items are the element children of the fixed document
+TypedTpls == {"typ2", "typd", "typ3", "rtd", "rtds"}
+RtTpls == {"rtd", "rtds", "rtany"}         \* declared result type xs:double / xs:double+
 CurryTpls == {"curry"}                     \* called with two argument lists: $f(a)(b)
 QNameTpls == {"qshadow", "qother", "qeqparam", "qalias", "qeqref", "qparamalias"}   \* need namespaces= p, q, r
 V31Tpls == {"bodyarr", "bodymap"}          \* array / map constructors: XPath 3.1 only
 CallOf(curried, f, args) == IF curried THEN Call(Call(f, <<args[1]>>), <<args[2]>>) ELSE Call(f, args)
 ScopeKind(id) == CASE id = "let1" -> "let" [] id = "fact1" -> "factory" [] id \in FocusTpls -> "map" [] OTHER -> "for"
 ItemKind(id) == CASE id = "pvar" -> "partial-inline" [] id = "pstat" -> "partial-named"
-                  [] id = "ref1" -> "named" [] id \in FocusTpls -> "named-focus" [] OTHER -> "inline"
+                  [] id = "ref1" -> "named" [] id \in LookupTpls -> "lookup-focus" [] id \in FocusTpls -> "named-focus"
+                  [] OTHER -> "inline"
 (* the creating scope around an arbitrary inner expression *)
 CreateWith(id, vals, inner) ==
   IF id = "let1"
   THEN For("j", Lits(vals), Let("a", Op("+", Var("j"), Lit(100)), inner))
+  ELSE IF id \in StepTpls THEN PStep(Kids(Len(vals)), inner)      \* /r/*[position() le n]/name#0
   ELSE IF id \in DocTpls THEN Map(Kids(Len(vals)), inner)         \* /r/*[position() le n] ! name#0
   ELSE IF id \in FocusTpls THEN Map(Lits(vals), inner)            \* (10, 20, 30) ! position#0
   ELSE For("i", Lits(vals), inner)
@@ -321,7 +342,7 @@ PartialLaw ==
               LET fixed == {q \in 1..Len(f.mask) : ~IsHole(f.mask[q])}
                   c == [fn |-> "inline",
                         params |-> SelectSeq(f.base.params, LAMBDA p : \E q \in 1..Len(f.mask) : f.base.params[q] = p /\ IsHole(f.mask[q])),
-                        types |-> ParamTypes(f),
+                        types |-> ParamTypes(f), rtype |-> f.base.rtype,
                         body |-> f.base.body,
                         env |-> [v \in DOMAIN f.base.env \cup {f.base.params[q] : q \in fixed} |->
                                    IF \E q \in fixed : f.base.params[q] = v
@@ -349,7 +370,12 @@ TypedLaw ==
          a == EvalArgs(ev[j].args, EmptyEnv) IN
      (tpl \in TypedTpls /\ f.fn = "partial") =>
         LET full == Fill(f.mask, a) IN
-        log[LogIdx(j)] = Eval(f.base.body, Bind(f.base.env, f.base.params, ConvertAll(full, f.base.types)))
+        log[LogIdx(j)] = Convert(Eval(f.base.body, Bind(f.base.env, f.base.params, ConvertAll(full, f.base.types))),
+                                 f.base.rtype)
+(* a declared result type converts the result of EVERY call, whatever the form of the function item *)
+ResultTypeLaw ==
+  tpl \in RtTpls => /\ \A j \in 1..Len(log) : Len(log[j]) >= 1 /\ \A q \in 1..Len(log[j]) : Has(log[j][q], "d")
+                    /\ (n >= 1 => Env0(tpl, n).fs[1].rtype \in DoubleTypes)
 (* lexical scoping through nesting: the function item captured EVERY binding in scope, also one that only a
    nested function (or a constructor / quantifier inside the body) reads *)
 NestedCaptures ==
@@ -360,7 +386,7 @@ QNameLaw == /\ Canon("p:n") = Canon("q:n") /\ Canon("q:n") = Canon("Q{urn:p}n")
             /\ (tpl = "qshadow" /\ n >= 1 => Apply(Env0(tpl, n).fs[1], << <<I(3)>> >>) = <<I(3 * 2 + Vals[1])>>)
             /\ (tpl = "qalias" /\ n >= 1 => Apply(Env0(tpl, n).fs[1], << <<I(3)>> >>) = <<I(5 + 3 + Vals[1])>>)
 Laws == QNameLaw /\ NestedCaptures /\ SameCallSameResult /\ HistoryIndependent /\ ClosuresIndependent /\ Captures /\ PartialLaw /\ NamedLaw
-          /\ FocusLaw /\ TypedLaw
+          /\ FocusLaw /\ TypedLaw /\ ResultTypeLaw
 
 (* the implementation-shaped model: TLC must REFUTE this (expected counterexample) *)
 AsImplementedAgrees == ilog = log
